@@ -91,7 +91,7 @@ PROPS = {
     "C01": {"mc_quick": ["c01"], "mc_thorough": ["c01", "c01_deep"],
             "profiles": {"default": (100, 2000), "count": (100, 3000)}, "conf": {"conf_full": (60, 800)}},
     "C02": {"mc_quick": ["c02q"], "mc_thorough": ["c02", "c02_deep"],
-            "profiles": {"default": (80, 2000), "stop": (120, 3000)}, "conf": {"conf_full": (60, 800)}},
+            "profiles": {"default": (80, 2000), "stop": (120, 3000)}, "conf": {"conf_full": (40, 600), "conf_pat": (30, 400)}},
     "C03": {"mc_quick": ["c03q"], "mc_thorough": ["c03"],
             "profiles": {"default": (60, 1500), "term": (140, 3500)}, "conf": {"conf_full": (40, 600), "conf_kids": (30, 400)}},
     "C04": {"mc_quick": ["c04"], "mc_thorough": ["c04", "c02"],
@@ -101,7 +101,7 @@ PROPS = {
     "C09": {"mc_quick": ["c09q"], "mc_thorough": ["c09q", "c09t"],
             "profiles": {"default": (80, 2000), "events": (120, 3000)}, "conf": {"conf_full": (60, 800)}},
     "C10": {"mc_quick": ["c10"], "mc_thorough": ["c10", "c05"],
-            "profiles": {"default": (80, 2000), "excl": (120, 3000)}, "conf": {"conf_full": (60, 800)}},
+            "profiles": {"default": (80, 2000), "excl": (120, 3000)}, "conf": {"conf_full": (40, 600), "conf_sig": (30, 400)}},
     "C14": {"mc_quick": ["c14"], "mc_thorough": ["c14", "c04"],
             "profiles": {"hooks": (200, 5000)}, "conf": {"conf_full": (60, 800)}},
     "C11": {"mc_quick": ["c10", "c15"], "mc_thorough": ["c10", "c15t", "c05"],
@@ -111,11 +111,11 @@ PROPS = {
     "C15": {"mc_quick": ["c15"], "mc_thorough": ["c15", "c15t"],
             "profiles": {"directory": (200, 5000)}, "conf": {"conf_dir": (80, 1000)}},
     "C08": {"mc_quick": ["c08q"], "mc_thorough": ["c08"],
-            "profiles": {"shutdown": (200, 5000)}, "conf": {"conf_full": (60, 800)}},
+            "profiles": {"shutdown": (200, 5000)}, "conf": {"conf_sig": (60, 800)}},
     "C18": {"mc_quick": ["c18"], "mc_thorough": ["c18", "c03"],
             "profiles": {"signals": (200, 5000)}, "conf": {"conf_full": (30, 500), "conf_kids": (40, 600)}},
     "C19": {"mc_quick": ["c19q"], "mc_thorough": ["c19"],
-            "profiles": {"boot": (200, 5000)}, "conf": {"conf_full": (60, 800)}},
+            "profiles": {"boot": (200, 5000)}, "conf": {"conf_full": (30, 400), "conf_pat": (40, 600)}},
 }
 
 def cfg_text(mcname, prop):
